@@ -136,6 +136,24 @@ class Partial:
         return f"<partial {self.fn!r}>"
 
 
+class Instance(Record):
+    """Object of a plain repository class (one that defines __init__): its attributes are the fields, set by interpreting __init__ (and
+    whatever method stores into `self` later) with `self` bound to this object.  Shared by reference, like the python object."""
+
+    def __init__(self, csc):
+        Record.__init__(self, csc.name, [], [], cls=csc)
+
+    def set(self, name, value):
+        if name in self.fields:
+            self.values[self.fields.index(name)] = value
+        else:
+            self.fields.append(name)
+            self.values.append(value)
+
+    def __repr__(self):
+        return f"<instance of {self.tname}>"
+
+
 class VMap:
     def __init__(self, fn, in_axes=0, out_axes=0):
         self.fn, self.in_axes, self.out_axes = fn, in_axes, out_axes
@@ -219,6 +237,7 @@ class SymInterp(Interp):
         if sample is not None:
             self.policy = sample
         self.decisions = []      # symbolic quantities whose sign was decided at the sample point (the path condition of the run)
+        self.instances = []      # objects of plain repository classes created during the run
 
     def _log(self, r):
         try:
@@ -397,6 +416,8 @@ class SymInterp(Interp):
             if v.size() == 1:
                 return self.truth(v.data[0])
             raise EvalError("truth value of an array")
+        if isinstance(v, Instance) and (self._class_member(v.cls, "__bool__") is not None or self._class_member(v.cls, "__len__") is not None):
+            raise EvalError("truth value of an object with __bool__ / __len__")
         if isinstance(v, (Closure, PyFunc, Partial, VMap, Record)):
             return True
         return super().truth(v)
@@ -413,6 +434,58 @@ class SymInterp(Interp):
             except INTERP_ERRORS:
                 out.append(None)
         return out
+
+    _UNMODELLED_HOOKS = ("__new__", "__setattr__", "__getattr__", "__getattribute__", "__delattr__", "__init_subclass__", "__slots__", "__set_name__",
+                         "__class_getitem__", "__del__")
+
+    def _class_chain(self, csc, depth=0):
+        """the repository classes a plain class is made of (itself and its bases), or None when a base is not a plain repository class"""
+        node = csc.node
+        if depth > 4 or not isinstance(node, ast.ClassDef) or node.decorator_list or node.keywords:
+            return None
+        chain = [csc]
+        for b, bnode in zip(self._bases(csc), node.bases):
+            if isinstance(bnode, ast.Name) and bnode.id == "object":
+                continue
+            if not (isinstance(b, Ext) and b.name.startswith("class:")):
+                return None
+            bsc = self.repo.find(b.name[len("class:"):])
+            sub = self._class_chain(bsc, depth + 1) if bsc is not None else None
+            if sub is None:
+                return None
+            chain += sub
+        return chain
+
+    def _plain_class_init(self, csc):
+        """`__init__` of a plain python class of the repository (no decorator, no metaclass, only plain repository bases, none of the hooks that
+        change attribute access or construction); None when the class is not of that kind"""
+        chain = self._class_chain(csc)
+        if chain is None:
+            return None
+        for c in chain:
+            names = {ch.name for ch in c.children if ch.kind == "function"}
+            for st in c.node.body:
+                if isinstance(st, ast.Assign):
+                    names |= {t.id for t in st.targets if isinstance(t, ast.Name)}
+            if names & set(self._UNMODELLED_HOOKS):
+                return None
+        init = self._class_member(csc, "__init__")
+        return init if isinstance(init, Closure) and init.scope.kind == "function" and not init.scope.node.decorator_list else None
+
+    def _instantiate(self, csc, init, args, kwargs):
+        inst = Instance(csc)
+        self.instances.append(inst)
+        r = self.call(init, [inst] + list(args), kwargs)
+        if r is not None:
+            raise EvalError(f"__init__ of {csc.name} returns a value")
+        return inst
+
+    def _set_attribute(self, inst, a, v):
+        for c in self._class_chain(inst.cls) or []:
+            for ch in c.children:
+                if ch.kind == "function" and ch.name == a and ch.node.decorator_list:
+                    raise EvalError(f"store into the managed attribute {a} of {inst.tname}")
+        inst.set(a, v)
 
     def _class_fields(self, csc, depth=0):
         """fields of a record class: its annotated attributes, else those of the namedtuple / record class it derives from"""
@@ -655,6 +728,9 @@ class SymInterp(Interp):
                 return self.call(m, args, kwargs)
         if isinstance(f, Ext) and f.name.startswith("class:"):
             csc = self.repo.find(f.name[len("class:"):])
+            init = self._plain_class_init(csc) if csc is not None else None
+            if init is not None:
+                return self._instantiate(csc, init, args, kwargs)
             own = [st.target.id for st in csc.node.body if isinstance(st, ast.AnnAssign) and isinstance(st.target, ast.Name)] if csc is not None else []
             if csc is not None and not own and getattr(csc.node, "bases", None):
                 fields = self._class_fields(csc)
@@ -753,6 +829,8 @@ class SymInterp(Interp):
             return Record(v.tname, v.fields, out, cls=v.cls) if isinstance(v, Record) else type(v)(out)
         if isinstance(axis, dict):
             raise EvalError("vmap: dictionary in_axes")
+        if isinstance(v, Instance):
+            raise EvalError("vmap over an object of a plain class")
         if isinstance(v, Arr):
             ax = self.as_int(axis)
             if ax < 0:
@@ -769,6 +847,8 @@ class SymInterp(Interp):
     def _axis_len(self, v, axis):
         if axis is None:
             return None
+        if isinstance(v, Instance):
+            raise EvalError("vmap over an object of a plain class")
         if isinstance(axis, (tuple, list)):
             vs = list(v.values) if isinstance(v, Record) else v
             if not isinstance(vs, (tuple, list)) or len(vs) != len(axis):
@@ -806,6 +886,8 @@ class SymInterp(Interp):
             if any(not isinstance(o, (tuple, list)) or len(o) != len(o0) for o in outs):
                 raise EvalError("vmap: results of different structure")
             return type(o0)(self.tree_stack([o[k] for o in outs]) for k in range(len(o0)))
+        if any(isinstance(o, Instance) for o in outs):
+            raise EvalError("vmap: an object of a plain class is returned")
         if isinstance(o0, Record):
             return Record(o0.tname, o0.fields, [self.tree_stack([o.values[k] for o in outs]) for k in range(len(o0.values))], cls=o0.cls)
         if isinstance(o0, dict):
@@ -823,8 +905,7 @@ class SymInterp(Interp):
             axes = list(in_axes)
         else:
             axes = [in_axes] * len(args)
-        if f.out_axes not in (0,) and not (isinstance(f.out_axes, (Dual, Fraction)) and self.as_int(f.out_axes) == 0):
-            raise EvalError("vmap with out_axes other than 0")
+        self._check_out_axes(f.out_axes)
         n = None
         for a, ax in zip(args, axes):
             if ax is None:
@@ -849,7 +930,41 @@ class SymInterp(Interp):
             ai = [self._map_leaf(a, ax, i) for a, ax in zip(args, axes)]
             ki = {k: self._map_leaf(v, 0, i) for k, v in kwargs.items()}
             outs.append(self.call(f.fn, ai, ki))
-        return self.tree_stack(outs)
+        return self._apply_out_axes(self.tree_stack(outs), f.out_axes)
+
+    def _check_out_axes(self, spec):
+        """out_axes of jax.vmap: an integer (every result leaf) or a tuple / list of such specifications matching the result"""
+        if isinstance(spec, (tuple, list)):
+            for s in spec:
+                self._check_out_axes(s)
+            return
+        if spec is None or isinstance(spec, bool) or not isinstance(spec, (int, Dual, Fraction)):
+            raise EvalError("vmap with out_axes that is not an integer (or a tuple of integers)")
+        self.as_int(spec)
+
+    def _apply_out_axes(self, res, spec):
+        """the stacked results carry the mapped axis in front: move it to the position(s) `spec` asks for"""
+        if isinstance(spec, (tuple, list)):
+            vs = list(res.values) if isinstance(res, Record) else res
+            if not isinstance(vs, (tuple, list)) or len(vs) != len(spec):
+                raise EvalError("vmap: out_axes structure does not fit the result")
+            out = [self._apply_out_axes(x, s) for x, s in zip(vs, spec)]
+            return Record(res.tname, res.fields, out, cls=res.cls) if isinstance(res, Record) else type(res)(out)
+        k = self.as_int(spec)
+        if k == 0:
+            return res
+        if isinstance(res, Arr):
+            kk = k + res.ndim if k < 0 else k
+            if not 0 <= kk < res.ndim:
+                raise EvalError("vmap: out_axes out of range for a result")
+            return moveaxis0(res, kk)
+        if isinstance(res, (tuple, list)):
+            return type(res)(self._apply_out_axes(x, spec) for x in res)
+        if isinstance(res, Record):
+            return Record(res.tname, res.fields, [self._apply_out_axes(x, spec) if x is not None else None for x in res.values], cls=res.cls)
+        if isinstance(res, dict):
+            return {kx: self._apply_out_axes(x, spec) for kx, x in res.items()}
+        raise EvalError("vmap: out_axes applied to a result that is not an array")
 
     # methods ---------------------------------------------------------
     def call_method(self, base, name, args, kwargs):
@@ -1485,7 +1600,29 @@ class SymInterp(Interp):
             raise EvalError("global / nonlocal statement")
         return super().stmt(st, env)
 
+    def _held_by_an_object(self, arr):
+        def holds(x, depth=0):
+            if x is arr:
+                return True
+            if depth < 3 and isinstance(x, (tuple, list)):
+                return any(holds(y, depth + 1) for y in x)
+            if depth < 3 and isinstance(x, dict):
+                return any(holds(y, depth + 1) for y in x.values())
+            return False
+        return any(holds(x) for inst in self.instances for x in inst.values)
+
     def assign(self, t, v, env):
+        if isinstance(t, ast.Attribute):
+            base = self.eval(t.value, env)
+            if not isinstance(base, Instance):
+                raise EvalError("attribute store into something that is not an object of a plain repository class")
+            self._set_attribute(base, t.attr, v)
+            return
+        if isinstance(t, ast.Subscript) and self.instances and isinstance(t.value, ast.Name):
+            base = self.eval(t.value, env)
+            if isinstance(base, Arr) and self._held_by_an_object(base):
+                # the store is modelled by rebinding the names in scope; an attribute that aliases the array would not see it
+                raise EvalError("in-place store into an array that an object attribute also refers to")
         if isinstance(t, (ast.Tuple, ast.List)):
             if isinstance(v, Arr):
                 v = rows(v)
